@@ -229,6 +229,16 @@ func ErrKind(err error) string {
 	return "other:" + msg
 }
 
+// Scribble overwrites a buffer that was handed to, or received from, the code
+// under test once the call has returned. Neither side may keep a reference to
+// it (os.File never does): an implementation that stores the caller's slice,
+// or returns its own, shows up as a change of content nobody asked for.
+func Scribble(b []byte) {
+	for i := range b {
+		b[i] = 0xA5
+	}
+}
+
 // Guard runs f and converts a panic into (kind, message): kind is "DEADLOCK"
 // for the shim's decided self-deadlock, "PANIC" otherwise, "" when f returned.
 func Guard(f func()) (kind, msg string) {
@@ -386,14 +396,20 @@ func do(v avfs.VFS, c Call) Res {
 
 		return errRes(err)
 	case "WriteFile":
-		return errRes(v.WriteFile(c.A, []byte(c.Data), perm))
+		data := []byte(c.Data)
+		err := v.WriteFile(c.A, data, perm)
+		Scribble(data)
+
+		return errRes(err)
 	case "AppendFile": // OpenFile(O_APPEND|O_WRONLY) + Write + Close
 		f, err := v.OpenFile(c.A, os.O_WRONLY|os.O_APPEND, 0)
 		if err != nil {
 			return errRes(err)
 		}
 
-		_, err = f.Write([]byte(c.Data))
+		data := []byte(c.Data)
+		_, err = f.Write(data)
+		Scribble(data)
 		_ = f.Close()
 
 		return errRes(err)
@@ -467,6 +483,7 @@ func do(v avfs.VFS, c Call) Res {
 		b, err := v.ReadFile(c.A)
 		r := errRes(err)
 		r.Val = fmt.Sprintf("%q", b)
+		Scribble(b)
 
 		return r
 	case "Readlink":
